@@ -317,6 +317,9 @@ class ConcreteCtx:
     def ghost(self):
         return {}
 
+    def inst(self, k):
+        pass
+
 
 class InvalidInput(Exception):
     pass
